@@ -19,6 +19,11 @@ GROUPS = {
 
 def in_fragment(case):
     """the documented fragment of C13"""
+    import re
+    for m in case["input"]["mods"]:
+        # a module whose name is no Rust identifier (`c.v1`) cannot be declared by a `mod` item mirroring the tree
+        if any(not re.fullmatch(r"(r#)?[A-Za-z_][A-Za-z0-9_]*", seg) for seg in m["path"]):
+            return False
     for m in case["input"]["mods"]:
         for d in m["defs"]:
             if d["k"] != "type":
@@ -134,5 +139,5 @@ def run_c13(tier):
     res.coverage = cov
     res.assumptions = ["the deciding oracle is rustc; the specification enumerates the inputs and delimits the fragment",
                        "calling-convention strings are normalised to \"C\" on 64-bit targets; i686 keeps the real ones",
-                       "outside the fragment: receiver-less virtual functions, packed types with a base, by-value void, duplicate discriminants"]
+                       "outside the fragment: receiver-less virtual functions, packed types with a base, by-value void, duplicate discriminants, module names that are no Rust identifiers (dotted file or directory names)"]
     return res.finish()
